@@ -64,6 +64,7 @@ def main():
             case["from"] = sid
         lst.append(case)
         corpus[chk] = lst
+        os.makedirs(V + "/corpus", exist_ok=True)
         json.dump({"cases": lst}, open(V + "/corpus/%s.json" % chk, "w"))
         print(sid, chk, "detected (%s), case of %d bytes kept" % (doc.get("kind"), len(json.dumps(case))), flush=True)
 
